@@ -1164,6 +1164,88 @@ fn mixed_batches(kind: Kind, thorough: bool) -> (u64, u64, Vec<Violation>) {
     (cases, mixed, viol)
 }
 
+/// The ECN codepoint of a received datagram is the low two bits of its TOS / traffic-class byte,
+/// whatever the upper six (DSCP) bits are: a peer with a plain socket (not quinn-udp, whose Transmit
+/// only ever sends DSCP 0) sends one datagram for every value 0..=255 of that byte, with the
+/// receiver's UDP_GRO on and off; `EcnCodepoint::from_bits` is also evaluated on all 256 values.
+/// Returns (cases compared, cases with DSCP != 0 and ECN != 0 compared, violations).
+fn tos_bytes(kind: Kind) -> (u64, u64, Vec<Violation>) {
+    let mut viol = vec![];
+    let (mut cases, mut marked) = (0u64, 0u64);
+    let want = |b: u8| match b & 3 {
+        0 => None,
+        1 => Some(EcnCodepoint::Ect1),
+        2 => Some(EcnCodepoint::Ect0),
+        _ => Some(EcnCodepoint::Ce),
+    };
+    if kind == Kind::V4V4 {
+        for b in 0..=255u8 {
+            cases += 1;
+            let got = EcnCodepoint::from_bits(b);
+            if got != want(b) {
+                viol.push(Violation {
+                    signature: "ecn-of-tos-byte".into(),
+                    what: format!("EcnCodepoint::from_bits({b:#04x}) = {got:?}, the ECN field (low two bits) is {:?}", want(b)),
+                    replay: json!({"check":"c19","kind":"tos","pair":"from_bits","tos":b}),
+                });
+                break;
+            }
+        }
+    }
+    let Ok(p) = mk_pair(kind) else { return (cases, marked, viol) };
+    let mut arena = vec![0u8; SLOT * BATCH_SIZE];
+    let v4_wire = kind != Kind::V6V6;
+    for gro in [true, false] {
+        p.set_rx_gro(gro);
+        for b in 0..=255u8 {
+            // the sending socket's default TOS / traffic class (a v4-mapped destination on a
+            // dual-stack socket takes IP_TOS)
+            let set = if v4_wire { setopt(&p.send, libc::IPPROTO_IP, libc::IP_TOS, b as i32) } else { setopt(&p.send, libc::IPPROTO_IPV6, libc::IPV6_TCLASS, b as i32) };
+            if set.is_err() {
+                continue;
+            }
+            let payload: Vec<u8> = (0..37).map(|i| pat(b as u32 + 1000, 0, i)).collect();
+            if p.send.send_to(&payload, &p.dst.into()).is_err() {
+                continue;
+            }
+            let deadline = Instant::now() + Duration::from_millis(RECV_WAIT_MS);
+            let mut seen: Option<RecvMeta> = None;
+            while seen.is_none() && Instant::now() < deadline {
+                let mut meta = [RecvMeta::default(); BATCH_SIZE];
+                let res = {
+                    let mut bufs: Vec<IoSliceMut<'_>> = arena.chunks_mut(SLOT).take(BATCH_SIZE).map(|c| IoSliceMut::new(&mut c[..SLOT - 1])).collect();
+                    catch_unwind(AssertUnwindSafe(|| p.rs.recv((&p.recv).into(), &mut bufs, &mut meta)))
+                };
+                match res {
+                    Ok(Ok(n)) if n > 0 => seen = Some(meta[0]),
+                    Ok(Ok(_)) => {}
+                    Ok(Err(e)) if e.kind() == io::ErrorKind::WouldBlock => {
+                        poll_in(&p.recv, 10);
+                    }
+                    _ => break,
+                }
+            }
+            let Some(m) = seen else { continue }; // the kernel is not owned: silence is not judged
+            cases += 1;
+            if b & 3 != 0 && b >> 2 != 0 {
+                marked += 1;
+            }
+            if m.ecn != want(b) || m.len != payload.len() || arena[..m.len] != payload[..] {
+                viol.push(Violation {
+                    signature: "ecn-of-tos-byte".into(),
+                    what: format!("{} (receiver UDP_GRO {}): a {}-byte datagram sent with TOS / traffic class {b:#04x} (DSCP {}, ECN bits {:02b}) was reported with ecn={:?} len={}; expected ecn={:?}", kind.name(), if gro { "on" } else { "off" }, payload.len(), b >> 2, b & 3, m.ecn, m.len, want(b)),
+                    replay: json!({"check":"c19","kind":"tos","pair":kind.name(),"tos":b,"gro":gro}),
+                });
+                if viol.len() >= 3 {
+                    let _ = if v4_wire { setopt(&p.send, libc::IPPROTO_IP, libc::IP_TOS, 0) } else { setopt(&p.send, libc::IPPROTO_IPV6, libc::IPV6_TCLASS, 0) };
+                    return (cases, marked, viol);
+                }
+            }
+        }
+    }
+    (cases, marked, viol)
+}
+
 fn replay(file: &std::path::Path) -> ! {
     let body = std::fs::read_to_string(file).unwrap_or_else(|e| machinery(&format!("cannot read {file:?}: {e}")));
     let v: Value = serde_json::from_str(&body).unwrap_or_else(|e| machinery(&format!("bad json: {e}")));
@@ -1182,6 +1264,19 @@ fn replay(file: &std::path::Path) -> ! {
             println!("VIOLATION {}: {}", v.signature, v.what);
         }
         std::process::exit(if viol.is_empty() { 0 } else { 1 });
+    }
+    if r["kind"] == "tos" || r["kind"] == "mixed" {
+        // the whole (small) part is repeated for the pair
+        let kinds: Vec<Kind> = Kind::from_name(r["pair"].as_str().unwrap_or("")).map(|k| vec![k]).unwrap_or_else(|| KINDS.to_vec());
+        let mut bad = false;
+        for k in kinds {
+            let viol = if r["kind"] == "tos" { tos_bytes(k).2 } else { mixed_batches(k, true).2 };
+            for v in &viol {
+                println!("VIOLATION {}: {}", v.signature, v.what);
+                bad = true;
+            }
+        }
+        std::process::exit(bad as i32);
     }
     let case = Case::from_json(r).unwrap_or_else(|| machinery("replay object is not a C19 case"));
     let p = mk_pair(case.kind).unwrap_or_else(|e| machinery(&format!("cannot create pair {}: {e}", case.kind.name())));
@@ -1222,6 +1317,7 @@ fn main() {
         For each socket pair {v4->v4, v6->v6, v4->dual-stack v6, dual-stack v6->v4-mapped}: transmit shape x ECN {None,Ect0,Ect1,Ce} \
         x src_ip {None, explicit loopback form(s)} x receive buffer size {exact total, +1, 65535} x receive iovecs {1, BATCH_SIZE} \
         x (multi-datagram transmits only) receiver UDP_GRO {on as quinn-udp sets it, switched off by the harness}. \
+        Plus: every value 0..=255 of the TOS / traffic-class byte sent by a plain socket (DSCP set by a peer or router) x receiver UDP_GRO {on, off}: reported ecn = low two bits. \
         Shapes: GSO segment_size {1,2,100,1200,1452} x every count 1..=hi (hi = min(max_gso_segments, first count whose total exceeds the family max)) \
         x last segment {full, 1 byte, half}; every other segment_size 1..=1472 x count (quick {2,3,hi-1,hi}, thorough 1..=hi) x last, with two receive shapes (quick: GRO-off only with BATCH_SIZE iovecs); \
         segment_size == len single datagrams; unsegmented: every length 1..=N (quick 1500, thorough 2048) with all receive shapes, plus \
@@ -1360,6 +1456,24 @@ fn main() {
             }
         }
         rep.part("mixed_receive_batches", Value::Object(mb));
+    }
+    // every value of the TOS / traffic-class byte, sent by a plain socket
+    {
+        let mut tb = serde_json::Map::new();
+        let mut marked_total = 0;
+        for (kind, _) in &plan {
+            let (cases, marked, viol) = tos_bytes(*kind);
+            rep.evaluations += cases;
+            marked_total += marked;
+            tb.insert(kind.name().into(), json!({"datagrams_compared": cases, "with_nonzero_dscp_and_ecn": marked}));
+            for v in viol {
+                rep.violation(v);
+            }
+        }
+        if marked_total == 0 {
+            machinery("vacuity guard: no datagram with a non-zero DSCP and a non-zero ECN field was received");
+        }
+        rep.part("tos_byte_values", Value::Object(tb));
     }
 
     // the quinn endpoint's own share of the property: coalesced receive batches are split back into
